@@ -279,3 +279,45 @@ func TestC08_R_DeepPairs(t *testing.T) {
 		}
 	}
 }
+
+// Names crafted (by inverting murmur3) to share 48..59 leading digest bits: the deepest separable HAMTs at every fanout.
+func TestC08_R_CraftedDeep(t *testing.T) {
+	for _, shared := range []int{48, 55, 56, 57, 58, 59} {
+		for _, f := range []int{8, 16, 32, 64, 128, 256, 512, 1024} {
+			var es []entrySpec
+			for _, n := range craftGroup(0x0123456789abcdef*uint64(shared), shared, 3, uint64(f)) {
+				es = append(es, entryFor(n, 1))
+			}
+			es = append(es, entryFor("other", 1))
+			got, gsz, err := buildSharded(NewStore(), es, f)
+			if err != nil {
+				t.Fatalf("C08 crafted shared=%d fanout=%d: builder: %v", shared, f, err)
+			}
+			want, wsz, err := refBuildShard(NewStore(), es, f)
+			if err != nil {
+				t.Fatalf("reference: shared=%d fanout=%d: %v", shared, f, err)
+			}
+			if got != want || gsz != wsz {
+				t.Fatalf("C08 crafted shared=%d fanout=%d: builder %s/%d, reference %s/%d", shared, f, got, gsz, want, wsz)
+			}
+		}
+	}
+}
+
+// Inseparable names (identical 64-bit digests): the reference refuses to build; the builder must refuse too (an error,
+// not a panic and not a directory that loses an entry).
+func TestC08_R_FullCollision(t *testing.T) {
+	for _, f := range []int{8, 16, 256, 1024} {
+		var es []entrySpec
+		for _, n := range craftGroup(0xfeedfacefeedface, 64, 2, 5) {
+			es = append(es, entryFor(n, 1))
+		}
+		_, _, rerr := refBuildShard(NewStore(), es, f)
+		var berr error
+		var root cidT
+		must(t, "build with colliding names", func() { root, _, berr = buildSharded(NewStore(), es, f) })
+		if (rerr == nil) != (berr == nil) {
+			t.Fatalf("C08 full collision fanout=%d: reference err=%v, builder err=%v (root %v)", f, rerr, berr, root)
+		}
+	}
+}
